@@ -873,3 +873,33 @@ Qed.
 Lemma failed_start_keeps_view : forall remote recovered m,
   cs_view remote recovered (cs_failed_start true m) = cs_view remote recovered m.
 Proof. reflexivity. Qed.
+
+(* ---------- chunking ---------- *)
+Lemma chunks_fuel_concat : forall {A} fuel n (l : list A), (0 < n)%nat -> (length l <= fuel)%nat ->
+  concat (cs_chunks_fuel fuel n l) = l.
+Proof.
+  intros A fuel. induction fuel as [|f IH]; intros n l Hn Hl.
+  - destruct l; [reflexivity|cbn [length] in Hl; lia].
+  - cbn [cs_chunks_fuel]. destruct l as [|a t]; [reflexivity|].
+    cbn [concat]. rewrite IH; [apply firstn_skipn|exact Hn|].
+    rewrite skipn_length. cbn [length] in *. lia.
+Qed.
+
+Lemma chunks_concat : forall {A} n (l : list A), (0 < n)%nat -> concat (cs_chunks n l) = l.
+Proof. intros A n l Hn. unfold cs_chunks. apply chunks_fuel_concat; [exact Hn|lia]. Qed.
+
+Lemma chunks_fuel_bounded : forall {A} fuel n (l : list A) c, In c (cs_chunks_fuel fuel n l) -> (length c <= n)%nat.
+Proof.
+  intros A fuel. induction fuel as [|f IH]; intros n l c H; [destruct H|].
+  cbn [cs_chunks_fuel] in H. destruct l as [|a t]; [destruct H|].
+  destruct H as [H|H]; [subst c; apply firstn_le_length|apply (IH _ _ _ H)].
+Qed.
+
+Lemma chunks_bounded : forall {A} n (l : list A) c, In c (cs_chunks n l) -> (length c <= n)%nat.
+Proof. intros A n l c H. apply (chunks_fuel_bounded _ _ _ _ H). Qed.
+
+(* processing chunk-wise, each chunk with its own elements, is processing the whole list — for every list, every chunk
+   size and every statement kind *)
+Lemma chunked_stmts_whole : forall n f ids d, (0 < n)%nat ->
+  apply_stmts (cs_chunked_stmts true n f ids) d = apply_stmts (map f ids) d.
+Proof. intros n f ids d Hn. unfold cs_chunked_stmts. rewrite chunks_concat; [reflexivity|exact Hn]. Qed.
